@@ -242,7 +242,7 @@ Fixpoint flat_class (e : expr) : bool :=
     | ENot | EFollowedBy | ELookahead => true          (* they yield no token *)
     | _ => false
     end
-  | Rep _ _ _ b None => flat_class b
+  | Rep _ _ _ b _ => flat_class b                 (* the stop_on sentinel yields no token *)
   | _ => false
   end.
 
@@ -274,7 +274,10 @@ Fixpoint in_class (e : expr) : bool :=
     | ENot | EFollowedBy | ELookahead => true
     | _ => false
     end
-  | Rep a ign _ body None => plain_attrs a && match ign with [] => true | _ => false end && in_class body
+  | Rep a ign _ body ne =>
+    (* with stop_on: `ne` is the dumped sentinel NotAny(stop_on), tried (try_parse) before every round *)
+    plain_attrs a && match ign with [] => true | _ => false end && in_class body &&
+    match ne with Some n => in_class n | None => true end
   | Fwd a ign (Some id) =>
     plain_attrs a && match ign with [] => true | _ => false end &&
     match nth_error G id with Some c => child_ok a c | None => true end
